@@ -74,5 +74,23 @@ Definition spec_verdict (E : cenv) (cb : callback) : Z :=
           end
       | _, _ => 2
       end
+  | CStmt (SExpr (ESubscript o ix)) =>
+      match operand_of E o, operand_of E ix with
+      | Some x, Some y => verdict (spec_subscript (operand_tdesc x) (operand_tdesc y))
+      | _, _ => 2
+      end
+  (* `let l = <list>; l[ix] = v`: the declared variable has the concrete type of its initialiser *)
+  | CStmt (SBlock [SDecl DLet [(_, None, Some lv)]; SExpr (EAssign (ESubscript (EIdent _) ix) v)]) =>
+      match operand_of E lv, operand_of E ix, operand_of E v with
+      | Some l, Some y, Some z =>
+          match concrete (operand_tdesc l) with
+          | Some t => match spec_subscript (DConcrete t) (operand_tdesc y) with
+                      | Some e => if spec_assignable E e (operand_tdesc z) then 1 else 0
+                      | None => 0
+                      end
+          | None => 0
+          end
+      | _, _, _ => 2
+      end
   | _ => 2
   end.
